@@ -5,7 +5,7 @@
     helper defined exactly once in the file or its imports, no self import) are evaluated in Coq on the
     parsed files. Dart itself is never executed (no SDK): DartSem covers the enum conversions only. *)
 From Coq Require Import List String ZArith Bool.
-From GM Require Import Base.Result Facts.GoFacts Facts.Ana Model.Enums Model.Fields Model.Classify Model.Names Model.SqlTypes Model.Dart Proofs.C10 Proofs.C06 Proofs.C06t Proofs.C06c.
+From GM Require Import Base.Result Facts.GoFacts Facts.Ana Model.Enums Model.Fields Model.Classify Model.Names Model.SqlTypes Model.Dart Proofs.C10 Proofs.C06 Proofs.C06t Proofs.C06c Proofs.C06x.
 From GM Require Import Base.StrOrd Model.DartGen.
 Import ListNotations.
 Local Open Scope string_scope.
@@ -86,6 +86,15 @@ Theorem C06_traversal_output_is_linked : forall root pr nodes F source st,
              /\ (dd_file d' = dd_file d \/ In (dd_file d, dd_file d') (ds_imps st)).
 Proof. exact dart_run_closed. Qed.
 
+(** the premise of the closure theorem is satisfiable: on the graph of struct S { X sub.N }, type N int (the input of
+    the defect repaired by 3d53a37) the traversal succeeds, S refers to N only, and models.dart imports the file of N *)
+Theorem C06_traversal_example :
+  ex_summary = Some ([ ("predefined.dart", "int_json", []);
+                       ("models_sub.dart", "N", ["int_json"]);
+                       ("models.dart", "S", ["N"]) ],
+                     [ ("models_sub.dart", "predefined.dart"); ("models.dart", "models_sub.dart") ]).
+Proof. exact traversal_succeeds_on_a_two_package_graph. Qed.
+
 Print Assumptions C06_keys_and_constructor_arguments.
 Print Assumptions C06_enum_value_table_roundtrip.
 Print Assumptions C06_positional_enum_index_is_value.
@@ -96,3 +105,4 @@ Print Assumptions C06_import_block.
 Print Assumptions C06_import_block_depends_on_the_edge_set_only.
 Print Assumptions C06_links_closed_means_every_reference_resolves.
 Print Assumptions C06_traversal_output_is_linked.
+Print Assumptions C06_traversal_example.
